@@ -30,13 +30,14 @@ JudgeRun(g, s, ref) ==
                   \cup (IF c.ret >= 0 /\ (Len(c.out) # c.p \/ c.dto # c.p) THEN {<<k, "I1-total_out-disagrees-with-pointer-advance">>} ELSE {})
             \* bytes handed over by a call that reports no error must be the next bytes of the reference decode (what a call
             \* returns together with an error code is not relied upon: the property only constrains reported success)
-            v2 == IF c.ret >= 0 /\ ~lenient /\ ~IsPrefixOf(delivered, ref.out) THEN {<<k, "I2-delivered-bytes-differ-from-reference-decode">>} ELSE {}
+            v2 == IF c.ret >= 0 /\ ~IsPrefixOf(delivered, ref.out) THEN {<<k, "I2-delivered-bytes-differ-from-reference-decode">>} ELSE {}
             v3 == (IF c.ret \notin Documented(s.api) THEN {<<k, "I3-undocumented-return-code">>} ELSE {})
                   \cup (IF c.ret < 0 /\ ref.tag = "Valid" /\ ~lenient THEN {<<k, "I3-valid-stream-rejected">>} ELSE {})
                   \cup (IF c.ret = 6 /\ ~(RefWrap(g.wrap) = "zlib" /\ ref.hdr.st = "ok" /\ ref.hdr.fields.dict_flag) THEN {<<k, "I3-dictionary-requested-without-FDICT">>} ELSE {})
             fin == c.bs = "FINISH" /\ c.ret >= 0      \* completion reported as success (an error code with the state parked in FINISH is a report, not a success)
             v4 == IF ~fin THEN {}
-                  ELSE (IF ref.tag # "Valid" /\ ~lenient THEN {<<k, "I4-finished-a-stream-the-spec-rejects-" \o ref.tag \o "-" \o ref.class>>} ELSE {})
+                  \* (`lenient` only lets the implementation REJECT what the RFC does not clearly forbid; success always needs a stream the spec decodes)
+                  ELSE (IF ref.tag # "Valid" THEN {<<k, "I4-finished-a-stream-the-spec-rejects-" \o ref.tag \o "-" \o ref.class>>} ELSE {})
                        \cup (IF ref.tag = "Valid" /\ delivered # ref.out THEN {<<k, "I4-finished-with-different-output">>} ELSE {})
                        \cup (IF ref.tag = "Valid" /\ c.fed - c.ain - (c.ril \div 8) # ref.endByte THEN {<<k, "I4-reported-input-position-is-not-the-end-of-stream">>} ELSE {})
                        \cup (IF ref.tag = "Valid" /\ ChecksumKind(g.wrap) = "crc32" /\ <<c.crc_lo, c.crc_hi>> # Crc32(ref.out) THEN {<<k, "I4-state-crc-differs-from-CRC32-of-output">>} ELSE {})
